@@ -14,6 +14,7 @@ import PtProofs.StackConcatLemmas
 import PtProofs.ReshapeLemmas
 import PtProofs.PadLemmas
 import PtProofs.EinsumLowerLemmas
+import PtProofs.AdvIndexLemmas
 namespace Pt
 
 /-! ## re-exported slice / linearisation theorems (statements in SliceLemmas / BasicLemmas) -/
@@ -271,6 +272,37 @@ theorem lower_einsum_correct (descrs : List (List EAxis)) (nout : Nat) (args : L
       = (Spec.einsumV descrs nout args).get i :=
   einsum_eval ⟨hlen, hne, hwf, hbc, helem, hred, hi⟩
 
+/-! ## advanced indexing -/
+
+/-- `map_contiguous_advanced_index` / `map_non_contiguous_advanced_index`: for an
+    array of ANY rank indexed, per axis, by an integer, a slice (any
+    start/stop/step) or an integer index array — the index arrays of any shapes
+    that broadcast to `B`, any number of them — the lowered expression evaluated
+    at any in-bounds index of the result is the element NumPy's advanced indexing
+    reads (`Spec.advIndex`: slices feed the output axes in order; the axes of `B`
+    sit after the last advanced index in the contiguous case and come first
+    otherwise; negative index values wrap).
+    Preconditions: what the node constructor checks (`advValid`: integers within
+    `[-n, n)`, steps non-zero) and the DATA-DEPENDENT one NumPy enforces at run
+    time: every index-array value is an integer within `[-n, n)`.  `first`/`last`
+    are the positions of the first / last advanced index (`AdvSeg`, contiguous case). -/
+theorem lower_advindex_correct (contig : Bool) (B : Shape) (first last : Nat) (ixs : List RAIdx)
+    (a : Arr Val) (in0 : String) (names : List String) (i : Idx)
+    (hv : Lower.advValid ixs a.shape)
+    (hB : ∀ x ∈ Lower.arrsOf ixs, Raise.Bcastable x.shape B)
+    (hnd : (in0 :: names).Nodup) (hn : names.length = (Lower.arrsOf ixs).length)
+    (hs : contig = true → ∃ pre blk post, AdvSeg ixs pre blk post first last)
+    (hi : inB (Spec.advIndex contig B first last ixs a).shape i = true) :
+    eval (idxEnv i (advBinds in0 names a (Lower.arrsOf ixs)))
+        (Lower.advIndexWith contig first last in0 names B (Lower.normAIdx a.shape ixs) a.shape)
+      = (Spec.advIndex contig B first last ixs a).get i := by
+  have hva := advValid_affine ixs a.shape hv
+  cases contig with
+  | false => exact advIndex_noncontig_eval ⟨hva, hB, hnd, hn, hi⟩ hv
+  | true =>
+    obtain ⟨pre, blk, post, hseg⟩ := hs rfl
+    exact advIndex_contig_eval ⟨hva, hB, hnd, hn, hi⟩ hseg hv
+
 /-! ## non-vacuity: concrete instances satisfying the hypotheses -/
 
 /-- a 2×3 test array with entries 1..6 -/
@@ -395,5 +427,28 @@ example : (evalIL (.reduce .sum "_r0" (.int 0) (.int 1)
         [Arr.ofList [2, 1] [.i 2, .i 3] .undef, exM23]).toList = [.i 12, .i 45]
     ∧ einsumAgrees ["ij".toList, "ij".toList] "i".toList [Arr.ofList [2, 1] [.i 2, .i 3] .undef, exM23] = true := by
   decide
+
+-- advanced indexing: x (3×4, entries 1..12); contiguous `x[1:, [[-1],[0]] (2×1 array) …]` and
+-- non-contiguous `x3[[0,-1], ::2, [1,-2]]`; the model's own `advIndex` (names, first/last computed)
+def exX34 : Arr Val := exM34
+def exI21 : Arr Val := Arr.ofList [2, 1] [.i (-1), .i 0] .undef
+def exI2a : Arr Val := Arr.ofList [2] [.i 0, .i (-1)] .undef
+def exI2b : Arr Val := Arr.ofList [2] [.i 1, .i (-2)] .undef
+def exX342 : Arr Val := Arr.ofList [3, 4, 2] ((List.range 24).map fun (k : Nat) => Val.i ((k + 1 : Nat) : Int)) .undef
+def exAdvC : List RAIdx := [.slice (some 1) none 1, .arr exI21 false]
+def exAdvN : List RAIdx := [.arr exI2a false, .slice none none 2, .arr exI2b false]
+example : (Lower.advIndex true (Lower.normAIdx [3, 4] exAdvC) [3, 4]).map
+      (fun e => (evalIL e [2, 2, 1] (advBinds "in" ["in_0"] exX34 [exI21])).toList)
+    = some (Spec.advIndex true [2, 1] 1 1 exAdvC exX34).toList
+    ∧ (Spec.advIndex true [2, 1] 1 1 exAdvC exX34).toList = [.i 8, .i 5, .i 12, .i 9]
+    ∧ (Spec.advIndex true [2, 1] 1 1 exAdvC exX34).shape = [2, 2, 1] := by decide
+example : (Lower.advIndex false (Lower.normAIdx [3, 4, 2] exAdvN) [3, 4, 2]).map
+      (fun e => (evalIL e [2, 2] (advBinds "in" ["in_0", "in_1"] exX342 [exI2a, exI2b])).toList)
+    = some (Spec.advIndex false [2] 0 2 exAdvN exX342).toList
+    ∧ (Spec.advIndex false [2] 0 2 exAdvN exX342).toList = [.i 2, .i 6, .i 17, .i 21] := by decide
+example : AdvSeg exAdvC [.slice (some 1) none 1] [.arr exI21 false] [] 1 1 :=
+  ⟨rfl, by simp [RAIdx.isSlice], by simp [RAIdx.isSlice], by simp, rfl, rfl⟩
+example : Lower.advValidAffine exAdvC [3, 4] ∧ Lower.advValidAffine exAdvN [3, 4, 2] := by
+  simp [Lower.advValidAffine, exAdvC, exAdvN]
 
 end Pt
